@@ -21,6 +21,9 @@ use std::panic::{catch_unwind, AssertUnwindSafe};
 pub struct C02 {
     table: Table,
     enumerated: Option<Vec<String>>,
+    directed: Vec<(&'static str, String)>,
+    /// programs that are ordinary in everything but size (scale.rs), built once
+    scale: Option<Vec<(String, String)>>,
 }
 
 pub fn directed() -> Vec<(&'static str, String)> {
@@ -63,6 +66,7 @@ pub fn directed() -> Vec<(&'static str, String)> {
         // from addresses above 65 535 must come back to where they were made
         ("call-above-64k", format!("stel x = 0; functie tel() {{ x = x + 1; x }}; {} [tel(), tel(), x]", "x = x + 1; ".repeat(9000))),
         ("calls-throughout-100k-of-code", format!("functie dubbel(v) {{ stel w = v * 2; w }}; stel som = 0; {} [som, dubbel(som)]", (0..6000).map(|k| format!("som = som + dubbel({}); ", k % 7)).collect::<String>())),
+        ("stack-boundary-call-with-pending-elements", "functie g() { 1 }; functie f(n) { als n == 0 { lengte([0, 1, 2, 3, 4, 5, 6, 7, 8, 9, g()]) } anders { 1 + f(n - 1) } }; [f(32764), f(32765), f(32766)]".into()),
         ("many-constants", (0..300).map(|i| format!("{};", i * 3)).collect::<String>() + "1"),
     ]
 }
@@ -132,7 +136,7 @@ fn cfi(trace: &[verif::TraceRec], instrs: &std::collections::HashMap<usize, bcv:
 
 impl C02 {
     pub fn new() -> Self {
-        C02 { table: Table::load(), enumerated: None }
+        C02 { table: Table::load(), enumerated: None, directed: directed(), scale: None }
     }
 
     fn enumerated(&mut self, ctx: &Ctx) -> &Vec<String> {
@@ -155,14 +159,23 @@ impl C02 {
             (_, Tier::Quick) => (1_500, 1_500),
             _ => (50_000, 50_000),
         };
-        Families::new(vec![("directed", directed().len() as u64), ("enumerated", n_enum), ("random", rnd), ("mutants-and-soups", mutants), ("control-templates", rnd / 2)])
+        let n_scale = self.scale(ctx).len() as u64;
+        Families::new(vec![("directed", self.directed.len() as u64), ("enumerated", n_enum), ("random", rnd), ("mutants-and-soups", mutants), ("control-templates", rnd / 2), ("scale", n_scale)])
+    }
+
+    fn scale(&mut self, ctx: &Ctx) -> &Vec<(String, String)> {
+        if self.scale.is_none() {
+            self.scale = Some(crate::scale::programs_for(ctx.flavour, ctx.tier));
+        }
+        self.scale.as_ref().unwrap()
     }
 
     fn text(&mut self, ctx: &Ctx, idx: u64) -> (&'static str, String) {
         let (f, name, i) = self.fams(ctx).locate(idx);
         let mut r = Rng::for_case(ctx.seed, 200 + f as u64, i);
         match name {
-            "directed" => (name, directed()[i as usize].1.clone()),
+            "directed" => (name, self.directed[i as usize].1.clone()),
+            "scale" => (name, self.scale(ctx)[i as usize].1.clone()),
             "enumerated" => (name, self.enumerated(ctx)[i as usize].clone()),
             "random" => {
                 let (p, _) = random_program(&mut r, PROFILES[(i % 6) as usize]);
@@ -228,7 +241,7 @@ impl Check for C02 {
         let (fam, text) = self.text(ctx, idx);
         let label = if fam == "directed" {
             let (_, _, i) = self.fams(ctx).locate(idx);
-            format!("{}:", directed()[i as usize].0)
+            format!("{}:", self.directed[i as usize].0)
         } else {
             String::new()
         };
@@ -293,7 +306,8 @@ impl Check for C02 {
             Flavour::Asan | Flavour::Miri => (false, ShadowMode::Off),
             _ => (true, ShadowMode::Quarantine),
         };
-        let mut cfg = ObsCfg { budget: Some(100_000), probes, shadow, trace: true, branch_schedule: None };
+        // (the directed cases that walk up to the 16-bit stack limit need a few million instructions)
+        let mut cfg = ObsCfg { budget: Some(if label.starts_with("stack-boundary") || fam == "scale" { 5_000_000 } else { 100_000 }), probes, shadow, trace: true, branch_schedule: None };
         let o = self.run_probed(&text, &cfg);
         let (trace, truncated) = verif::take_trace();
         crate::diff::record_opcodes(st);
